@@ -22,10 +22,13 @@ META = {
                   'unchanged, no update, error report of the class named by the decision list), no_call_cases, fitting_* (the '
                   'class clause by clause, fitting_invertedPair for a LimitsType pair), do_calls_iff, do_rejected_is_inert, request_ok + histories (every request of any '
                   'history, limits moved by earlier requests included, satisfies the monitored specification; WF is kept). '
+                  'calls_within_current_limits (lock discipline of the wrappers: in every interleaving of any number of threads a driver call is '
+                  'made with a value inside the limit in force at that moment). '
                   'The model is tied to dispatcher.py / modulebase.py / params.py by a correspondence run on the real '
                   'dispatcher with recording drivers, and the Lean monitors judge every implementation exchange.',
-    'level_note': 'Trusted: Lean kernel + axioms; the datatype layer (import_value/validate/export_value, comparisons of '
-                  'values) is an oracle here and the subject of C01-C03; drivers, command functions and check_ hooks are '
+    'level_note': 'Trusted: Lean kernel + axioms; for the ten SECoP datatype kinds the value accepted from the wire is recomputed '
+                  'by the C01 datatype model (acceptWire) in the Lean judge and the implementation must agree; export_value, '
+                  'comparisons, LimitsType/StatusType and driver-returned values remain an oracle (C01-C03); drivers, command functions and check_ hooks are '
                   'oracles by definition; time stamps / omit_unchanged_within are not modelled (C05): the node runs with '
                   'omit_unchanged_within = 0.',
     'trusted': [
@@ -34,7 +37,8 @@ META = {
         'a stored read error is identified by (type, args) as SECoPError.__eq__ does',
     ],
     'modelled_not_verified': [
-        'threading (accessLock / updateLock / dispatcher lock): one request at a time',
+        'threading: the sequential model serves one request at a time; the accessLock discipline is a separate small-step '
+        'system (AccessLock.lean) tied to the real wrappers by replaying their events under the deterministic scheduler',
         'time stamps and the omit_unchanged_within window (C05)',
         'Python MRO resolution producing the check_<param> chain (taken from the real class as data)',
     ],
@@ -1151,6 +1155,179 @@ def _script_exc(box, st, n):
 
 
 # ----------------------------------------------------------------------------------------
+# concurrent part: a change request racing a thread that moves the dynamic limit
+# ----------------------------------------------------------------------------------------
+class RecLock:
+    """the module's accessLock with its outermost acquire / release recorded per thread"""
+
+    def __init__(self, inner, events, tid):
+        self.inner, self.events, self.tid = inner, events, tid
+
+    def __enter__(self):
+        self.inner.acquire()
+        if getattr(self.inner, 'depth', 1) == 1:
+            self.events.append(['acquire', self.tid()])
+        return True
+
+    def __exit__(self, *exc):
+        if getattr(self.inner, 'depth', 1) == 1:
+            self.events.append(['release', self.tid()])
+        self.inner.release()
+        return False
+
+    acquire = __enter__
+
+    def release(self):
+        self.__exit__()
+
+
+def conc_run(case, policy):
+    """one schedule of: thread 1 = `change m:target v` (twice), thread 2 = moves target_max (driver-side read of a new
+    hardware limit / write_target_max / a change request).  Real SecNode + Dispatcher + wrappers under vlib.sched."""
+    import frappy.modulebase
+    import frappy.protocol.dispatcher
+    from frappy.modules import Module
+    from frappy.params import Parameter, Limit
+    from frappy.datatypes import FloatRange
+    from vlib.node import Node
+    from vlib.sched import Scheduler
+    s = Scheduler(policy=policy, max_steps=4000)
+    events, calls, replies = [], [], []
+
+    def tid():
+        me = s.me()
+        return {'h': 1, 'u': 2}.get(me.name[:1], 0) if me is not None else 0
+
+    with s.patched(frappy.modulebase, threading=s.threading, time=s.time, mkthread=s.mkthread), \
+            s.patched(frappy.protocol.dispatcher, threading=s.threading, currenttime=s.time):
+        class CM(Module):
+            enablePoll = False
+            target = Parameter('setpoint', FloatRange(0, 1000), readonly=False, default=0)
+            target_max = Limit()
+            hw_max = float(case['max0'])
+
+            def check_target(self, value):          # same as the automatic check, recorded
+                events.append(['check', tid(), int(value)])
+                self.checkLimits(value, 'target')
+
+            def read_target_max(self):
+                return self.hw_max
+
+            def write_target_max(self, value):
+                return value
+
+            def write_target(self, value):
+                events.append(['call', tid(), int(value)])
+                calls.append((value, self.target_max))
+                return value
+        node = Node({'m': {'cls': CM, 'description': 'm', 'target_max': {'value': float(case['max0'])}}},
+                    omit_unchanged_within=0)
+        mo = node.modules['m']
+        mo.accessLock = RecLock(mo.accessLock, events, tid)
+        mo.addCallback('target_max', lambda value, *err: events.append(['move', tid(), int(value)]) if not err else None)
+        c1, c2 = node.connect(), node.connect()
+
+        def requester():
+            for v in case['values']:
+                replies.append(reply_obs(node.request(c1, 'change', 'm:target', v)))
+            s.yield_(('end',))
+
+        def mover():
+            for how, new in case['moves']:
+                if how == 'read':
+                    mo.hw_max = float(new)
+                    try:
+                        mo.read_target_max()
+                    except Exception:
+                        pass
+                elif how == 'write':
+                    try:
+                        mo.write_target_max(float(new))
+                    except Exception:
+                        pass
+                else:
+                    node.request(c2, 'change', 'm:target_max', new)
+            s.yield_(('end',))
+        s.spawn('h1', requester)
+        s.spawn('u2', mover)
+        result = s.run(wall_timeout=20)
+        nj = node_json(node, None, None)
+    import logging
+    registry = logging.Logger.manager.loggerDict
+    for k in [k for k in registry if k == node.root.name or k.startswith(node.root.name + '.')]:
+        del registry[k]
+    return s, {'events': events, 'calls': calls, 'replies': replies, 'result': result, 'node': nj}
+
+
+def conc_requests(case, obs):
+    """driver requests for one run: the event sequence on the lock-discipline system + every driver call against the
+    limits of its moment"""
+    reqs = [{'p': PID, 'k': 'lockrun', 'max': int(case['max0']), 'acts': obs['events']}]
+    for v, lim in obs['calls']:
+        nj = json.loads(json.dumps(obs['node']))
+        for a in nj['modules'][0]['accs']:
+            if a['attr'] == 'target_max':
+                a['value'] = canon(lim)
+        orc = Oracle()
+        cmp_tables(orc, [v, lim])
+        reqs.append({'p': PID, 'k': 'judge_call', 'node': nj, 'oracle': orc.json(), 'm': 'm', 'attr': 'target', 'v': canon(v)})
+    return reqs
+
+
+def gen_conc_case(rng):
+    max0 = rng.choice([100, 80, 500])
+    values = [rng.choice([max0 - 10, max0, max0 // 2, max0 + 5]) for _ in range(rng.choice([1, 2]))]
+    moves = [[rng.choice(['read', 'read', 'write', 'change']), rng.choice([max0 // 4, max0 - 20, max0 + 100, 1])]
+             for _ in range(rng.choice([1, 1, 2]))]
+    return {'max0': max0, 'values': values, 'moves': moves}
+
+
+def conc_judge(ctx, case, obs):
+    """-> None or (sig, what)"""
+    ans = ctx.driver.batch(conc_requests(case, obs))
+    for a in ans:
+        if 'driver_error' in a:
+            raise RuntimeError('driver error: %s' % a['driver_error'])
+    for (v, lim), a in zip(obs['calls'], ans[1:]):
+        if not a['ok']:
+            return ('C04:concurrent:call-outside-current-limits',
+                    f'write_target({v}) was called while target_max was {lim} (moved by another thread between check and call); '
+                    f'replies {obs["replies"]}')
+    if not ans[0]['ok']:
+        return ('C04:concurrent:lock-discipline',
+                f'the wrappers\' events are not a run of the lock-discipline system (check / call / limit move outside one '
+                f'accessLock section): {obs["events"]}')
+    return None
+
+
+def run_concurrent(ctx, res, big):
+    from vlib.sched import explore, ReplayThenDefault
+    ncases = ctx.budget(14, 120)
+    seen_sigs = set()
+    for _ in range(ncases):
+        case = gen_conc_case(ctx.rng)
+        nruns = 0
+        for prefix, sched, obs in explore(lambda pol: conc_run(case, pol), max_preemptions=2, max_runs=60 if big else 30):
+            nruns += 1
+            if obs['result']['aborted'] not in (None,):
+                raise RuntimeError(f'scheduler aborted ({obs["result"]["aborted"]}) on {case}')
+            res.evaluations += 1
+            res.traces += 1
+            res.count('concurrent.schedules')
+            res.count('concurrent.driver-calls', len(obs['calls']))
+            if any(e[0] == 'move' for e in obs['events']) and obs['calls']:
+                res.nontriv(['conc', case, list(prefix)])
+            bad = conc_judge(ctx, case, obs)
+            if bad and bad[0] not in seen_sigs:
+                # a broken discipline is reported once; the search goes on for a schedule with a call outside the limits
+                seen_sigs.add(bad[0])
+                res.violations.append({'sig': bad[0], 'what': bad[1],
+                                       'case': {'concurrent': case, 'schedule': list(prefix)}})
+            if bad and bad[0].endswith('call-outside-current-limits'):
+                break
+
+
+# ----------------------------------------------------------------------------------------
 def gen_case(seed, big):
     rng = random.Random(seed)
     nodespec = gen_nodespec(rng, big)
@@ -1298,6 +1475,7 @@ def run(ctx):
                         f'the specification says: {why}',
                 'case': {'seed': case['seed'], 'big': case['big'], 'keep': keep},
                 'detail': {'step': idx, 'obs': {k: st['obs'][k] for k in ('reply', 'calls', 'emits')}}})
+    run_concurrent(ctx, res, big)
     res.count('cases', len(recs))
     if skipped:
         res.notes.append(f'{skipped} generated nodes were rejected by frappy itself at creation and skipped')
@@ -1306,6 +1484,16 @@ def run(ctx):
 
 def replay(ctx, rp):
     c = rp['case']
+    if 'concurrent' in c:
+        from vlib.sched import ReplayThenDefault
+        s, obs = conc_run(c['concurrent'], ReplayThenDefault(c['schedule']))
+        print('case    :', c['concurrent'])
+        print('events  :', obs['events'])
+        print('calls (value, target_max at that moment):', obs['calls'])
+        print('replies :', obs['replies'])
+        bad = conc_judge(ctx, c['concurrent'], obs)
+        print('judge   :', bad)
+        return 1 if bad else 0
     case = gen_case(c['seed'], c['big'])
     steps = case['steps'] if 'keep' not in c else [case['steps'][i] for i in c['keep']]
     if 'step' in c and 'keep' not in c:
